@@ -319,9 +319,9 @@ impl Store {
     (r is Completed) == write_ok(CHANNEL_MONITOR_PERSISTENCE_PRIMARY_NAMESPACE@, CHANNEL_MONITOR_PERSISTENCE_SECONDARY_NAMESPACE@, monitor_name.key(), monitor.bytes()),
     !(r is InProgress),
 //@mutant failed_write_reported_as_completed
-    Err(_) => chain::ChannelMonitorUpdateStatus::UnrecoverableError, } } fn archive_persisted_channel
+    Err(_) => chain::ChannelMonitorUpdateStatus::UnrecoverableError,
 //@with
-    Err(_) => chain::ChannelMonitorUpdateStatus::Completed, } } fn archive_persisted_channel
+    Err(_) => chain::ChannelMonitorUpdateStatus::Completed,
 //@end
 //@extract lightning/src/util/persist.rs :: impl Sized Persist for K :: fn archive_persisted_channel
 //@mutant live_copy_removed_even_if_archiving_failed
